@@ -73,6 +73,9 @@ class Checker:
         try:
             fn(self, *args, **kwargs)
         except Unknown as ex:
+            if os.environ.get("SA_DEBUG"):
+                import traceback
+                traceback.print_exc()
             log.unknowns.append(str(ex))
         except AnalysisError as ex:
             log.unknowns.append(str(ex))
@@ -137,6 +140,9 @@ def finish(checker, seed=0, level="other", explanation="", assumptions=(), trust
     prop = checker.prop
     known = [k for k in load_known() if prop in k.get("properties", [])]
     ev_dir = VERIF / "evidence"
+    if os.environ.get("SA_NO_EVIDENCE"):
+        import tempfile
+        ev_dir = pathlib.Path(tempfile.mkdtemp(prefix="sa-ev-"))
     rp_dir = ev_dir / "replay"
     rp_dir.mkdir(parents=True, exist_ok=True)
     for old in rp_dir.glob(f"{prop}-*.json"):
@@ -247,6 +253,9 @@ def finish(checker, seed=0, level="other", explanation="", assumptions=(), trust
                 print(f"      NOTE: {nt}")
         for ln in lines:
             print(ln)
+    if os.environ.get("SA_NO_EVIDENCE"):
+        import shutil
+        shutil.rmtree(ev_dir, ignore_errors=True)
     if violations:
         return 1
     if unknowns or floors_missed:
